@@ -39,6 +39,8 @@ Definition hdr_raw_of_fields (ids flags hd : list Z) : PduHeader :=
                   cf_mode := nth 0 flags 0; cf_large := nth 1 flags 0; cf_crc := nth 2 flags 0;
                   cf_dir := nth 3 flags 0; cf_segctrl := nth 4 flags 0 |} |}.
 
+Definition hdr_conf_raw (ids flags : list Z) : PduConfig := h_conf (hdr_raw_of_fields ids flags []).
+
 Definition run_hdr (op : Z) (a : args) : args :=
   match op with
   (* PduHeader(...) : fields, header_len, packet_len *)
